@@ -136,11 +136,30 @@ func finishCheck(o checkOpts, results []*funcResult, e *Engine, problems []strin
 			}
 			if !obOK(ob) {
 				groupBad[g] = ob.Result
+			} else if !ob.Smoke && ob.Ms > int64(o.timeoutS)*400 {
+				// discharged, but too close to the time limit to be claimed (it would be flaky under load)
+				groupBad[g] = fmt.Sprintf("discharged in %d ms, more than 40%% of the %d s limit: not claimed", ob.Ms, o.timeoutS)
 			}
+		}
+		// contracts/unclaim.json: obligations that discharge only because they may assume something that is itself
+		// unclaimed (e.g. postconditions resting on a loop invariant whose preservation is undecided)
+		var unclaim map[string][]struct{ Match, Reason string }
+		if data, err := os.ReadFile(filepath.Join(o.verif, "contracts", "unclaim.json")); err == nil {
+			_ = json.Unmarshal(data, &unclaim)
 		}
 		for _, g := range groups {
 			if why, bad := groupBad[g]; bad {
 				ne.Unclaimed[g] = "not discharged on the reference tree: " + why
+				continue
+			}
+			dep := ""
+			for _, u := range unclaim[o.prop] {
+				if strings.Contains(g, u.Match) {
+					dep = u.Reason
+				}
+			}
+			if dep != "" {
+				ne.Unclaimed[g] = "not claimed: " + dep
 			} else {
 				ne.Claimed = append(ne.Claimed, g)
 			}
